@@ -602,3 +602,56 @@ def cumulative_in_loop(loop, test, repo=None) -> tuple[bool, list[str]]:
             if t in aug or t in grown or (isinstance(n, ast.Attribute) and n.attr in counters):
                 return True, seen
     return False, seen
+
+
+# ---- short reads -------------------------------------------------------------------------------------------------------------------------
+SHORT_READS = ("read", "readany")
+
+
+def _is_short_read(e, helpers=()) -> bool:
+    """`await X.read(n)` / `await X.readany()` (StreamReader API: returns what is buffered, up to n), or a call of a helper that returns one."""
+    if isinstance(e, ast.Await):
+        e = e.value
+    if not (isinstance(e, ast.Call) and isinstance(e.func, ast.Attribute)):
+        return False
+    if e.func.attr in SHORT_READS and not (isinstance(e.func.value, ast.Name) and e.func.value.id in ("f", "fp", "fobj", "file")):
+        return True
+    return e.func.attr in helpers and isinstance(e.func.value, ast.Name) and e.func.value.id in ("self", "cls")
+
+
+def short_read_compares(cls_node) -> list[tuple[ast.Compare, str]]:
+    """Equality comparisons of a possibly short read with a bytes constant of two or more bytes, inside one class.
+    One level of helper methods (every `return` a short read) is followed."""
+    helpers = set()
+    for m in cls_node.body:
+        if isinstance(m, (ast.FunctionDef, ast.AsyncFunctionDef)):
+            rets = [r for r in ast.walk(m) if isinstance(r, ast.Return) and r.value is not None]
+            if rets and any(_is_short_read(r.value) for r in rets):
+                helpers.add(m.name)
+    out = []
+    for m in cls_node.body:
+        if not isinstance(m, (ast.FunctionDef, ast.AsyncFunctionDef)):
+            continue
+        defs = {}
+        for st in ast.walk(m):
+            if isinstance(st, ast.Assign) and len(st.targets) == 1 and isinstance(st.targets[0], ast.Name):
+                defs.setdefault(st.targets[0].id, []).append(st.value)
+        for c in ast.walk(m):
+            if not (isinstance(c, ast.Compare) and len(c.ops) == 1 and isinstance(c.ops[0], (ast.Eq, ast.NotEq))):
+                continue
+            a, b = c.left, c.comparators[0]
+            for x, k in ((a, b), (b, a)):
+                if isinstance(k, ast.Constant) and isinstance(k.value, bytes) and len(k.value) >= 2:
+                    srcs = [x] + (defs.get(x.id, []) if isinstance(x, ast.Name) else [])
+                    for s in srcs:
+                        if _is_short_read(s, helpers):
+                            out.append((c, ast.unparse(s)))
+                            break
+    return out
+
+
+def _short_read_selfcheck() -> bool:
+    pos = ast.parse("class A:\n async def _end(self):\n  if self._n:\n   return await self._content.read(2)\n  return await self._content.readline()\n"
+                    " async def f(self):\n  if await self._end() != b'\\r\\n':\n   raise ValueError\n")
+    neg = ast.parse("class A:\n async def f(self):\n  if await self._content.readline() != b'\\r\\n':\n   raise ValueError\n  c = await self._content.read(1)\n  if c == b'x':\n   pass\n")
+    return len(short_read_compares(pos.body[0])) == 1 and not short_read_compares(neg.body[0])
